@@ -530,12 +530,12 @@ static Json gen_reuse(Rng &r0, const std::string &focus, int tier)
         }
         if (r.chance(1, 3)) {
                 Json g = Json::obj();
-                g.set("s", r.u64() >> 16).set("n", (uint64_t) r.logsize(20000)).set("fault", 0).set("dict", 0);
+                g.set("s", r.u64() >> 16).set("n", (uint64_t) r.logsize(20000)).set("fault", 0).set("dict", 0).set("ld", r.chance(1, 3) ? (int) (1 + r.below(3)) : 0);
                 p.set("gram_a", g);
         }
         if (r.chance(1, 3)) {
                 Json g = Json::obj();
-                g.set("s", r.u64() >> 16).set("n", (uint64_t) r.logsize(5000)).set("fault", r.chance(2, 3) ? (int) (1 + r.below(GF_NKINDS - 1)) : 0).set("dict", 0);
+                g.set("s", r.u64() >> 16).set("n", (uint64_t) r.logsize(5000)).set("fault", r.chance(2, 3) ? (int) (1 + r.below(GF_NKINDS - 1)) : 0).set("dict", 0).set("ld", r.chance(1, 3) ? (int) (1 + r.below(3)) : 0);
                 p.set("gram_b", g);
         }
         Json mem = Json::obj();
